@@ -206,20 +206,17 @@ pub fn run_one(sb: &Sandbox, sc: &Scenario, fault: &Fault, bound: usize) -> RunR
     }
 }
 
-pub fn child_warm_all(sc: &Scenario, faults: &[Fault], bound: usize) -> Vec<RunRep> {
-    let sb = Sandbox::create("c10");
-    let v = faults.iter().map(|f| run_one(&sb, sc, f, bound)).collect();
-    sb.destroy();
-    v
+pub fn child_warm_all(sb: &Sandbox, sc: &Scenario, faults: &[Fault], bound: usize) -> Vec<RunRep> {
+    faults.iter().map(|f| run_one(sb, sc, f, bound)).collect()
 }
 
-fn run_fault(sc: &Scenario, faults: &[Fault], bound: usize) -> Result<Vec<Result<RunRep, String>>, Fail> {
+fn run_fault(sb: &Sandbox, sc: &Scenario, faults: &[Fault], bound: usize) -> Result<Vec<Result<RunRep, String>>, Fail> {
     // cold: every run in its own process (fresh lazies); warm: one process
     if sc.cold {
         let mut out = vec![];
         for f in faults {
             let one = [f.clone()];
-            match run_in_child(60.0, || child_warm_all(sc, &one, bound)) {
+            match run_in_child(60.0, || child_warm_all(sb, sc, &one, bound)) {
                 ChildOut::Ok(mut v) => out.push(Ok(v.remove(0))),
                 ChildOut::Crashed { sig } => out.push(Err(format!("process died with signal {}", sig))),
                 ChildOut::Exit { code, stderr_hint } => return Err(Fail::Harness(format!("child exit {}: {}", code, stderr_hint))),
@@ -228,14 +225,14 @@ fn run_fault(sc: &Scenario, faults: &[Fault], bound: usize) -> Result<Vec<Result
         }
         Ok(out)
     } else {
-        match run_in_child(600.0, || child_warm_all(sc, faults, bound)) {
+        match run_in_child(600.0, || child_warm_all(sb, sc, faults, bound)) {
             ChildOut::Ok(v) => Ok(v.into_iter().map(Ok).collect()),
             ChildOut::Crashed { sig } => {
                 // find the culprit one by one
                 let mut out = vec![];
                 for f in faults {
                     let one = [f.clone()];
-                    match run_in_child(60.0, || child_warm_all(sc, &one, bound)) {
+                    match run_in_child(60.0, || child_warm_all(sb, sc, &one, bound)) {
                         ChildOut::Ok(mut v) => out.push(Ok(v.remove(0))),
                         ChildOut::Crashed { sig } => out.push(Err(format!("process died with signal {}", sig))),
                         _ => return Err(Fail::Harness(format!("warm child died with signal {} and the rerun failed", sig))),
@@ -260,8 +257,17 @@ fn same_result(a: &RunRep, b: &RunRep) -> bool {
 }
 
 pub fn check(sc: &Scenario, stats: &mut Stats) -> Result<(), Fail> {
+    // the sandbox (with its decoy forest) is made once per scenario by this
+    // process, which never runs library code; the runs only rebuild the root
+    let sb = Sandbox::create("c10");
+    let r = check_in(&sb, sc, stats);
+    sb.destroy();
+    r
+}
+
+fn check_in(sb: &Sandbox, sc: &Scenario, stats: &mut Stats) -> Result<(), Fail> {
     // baseline
-    let base = match run_fault(sc, &[Fault::None], 400_000)?.remove(0) {
+    let base = match run_fault(sb, sc, &[Fault::None], 400_000)?.remove(0) {
         Ok(r) => r,
         Err(e) => return Err(Fail::Harness(format!("baseline run crashed: {}", e))),
     };
@@ -303,7 +309,7 @@ pub fn check(sc: &Scenario, stats: &mut Stats) -> Result<(), Fail> {
     stats.class(&format!("kcfg:{}", sc.kcfg.name()));
     stats.class(&format!("baseline:{}", base.out.class()));
     let t0 = now_s();
-    let reps = run_fault(sc, &faults, bound)?;
+    let reps = run_fault(sb, sc, &faults, bound)?;
     if std::env::var("PV_DEBUG_SLOW").is_ok() {
         eprintln!("C10 scenario {} kcfg={} cold={} baseline_syscalls={} faults={} took {:.1}s", sc.step.brief(), sc.kcfg.name(), sc.cold, n, faults.len(), now_s() - t0);
     }
@@ -377,7 +383,7 @@ pub fn check(sc: &Scenario, stats: &mut Stats) -> Result<(), Fail> {
 }
 
 fn run_lane(ctx: &Ctx, lr: &mut LaneResult) {
-    let n = ctx.tier.pick(48, 640);
+    let n = ctx.tier.pick(32, 640);
     search_opts(ctx, lr, "fault", n, scenario(), &check, 6);
 }
 
